@@ -107,6 +107,23 @@ func TestC09(t *testing.T) {
 			r.Class("library-starts-with-top-level-code")
 		}
 		r.Class(fmt.Sprintf("files-%d", nlibs+1))
+		spelled := map[string]map[string]bool{}
+		for n, f := range prog.Files {
+			for _, im := range f.Imports {
+				if im.Path != "strings" {
+					if spelled[im.Path] == nil {
+						spelled[im.Path] = map[string]bool{}
+					}
+					spelled[im.Path][filepath.Join(filepath.Dir(n), im.Path)] = true
+				}
+			}
+		}
+		for _, targets := range spelled {
+			if len(targets) >= 2 {
+				r.Class("one-import-spelling-for-different-files")
+				break
+			}
+		}
 		all := mainSource(srcs, "main.tsh")
 		if libsWithTopCalls >= 2 || diamond || repeated || digitWithGlobal {
 			r.NonTrivial(all, map[string]any{"files": srcs, "expect_stdout": ref.Stdout})
@@ -222,8 +239,11 @@ type c09Graph struct {
 func c09BuildGraph(t *rapid.T) c09Graph {
 	nlibs := gen.Uniform(1, 4).Draw(t, "nlibs")
 	names := []string{"main.tsh"}
+	// two layouts of the tree; in the second one several files have the same base name, so importers in different
+	// directories spell DIFFERENT files identically ("util.tsh" seen from . and from pkg/) and the same file differently
+	layout := [][]string{{"liba.tsh", "lib/b.tsh", "c.tsh", "lib/deep/d.tsh"}, {"pkg/p.tsh", "util.tsh", "pkg/util.tsh", "pkg/sub/util.tsh"}}[gen.Uniform(0, 1).Draw(t, "layout")]
 	for i := 0; i < nlibs; i++ {
-		names = append(names, []string{"liba.tsh", "lib/b.tsh", "c.tsh", "lib/deep/d.tsh"}[i])
+		names = append(names, layout[i])
 	}
 	files := make([]c9File, nlibs+1)
 	for i := range files {
@@ -282,7 +302,7 @@ func c09BuildGraph(t *rapid.T) c09Graph {
 			f.Imports = append(f.Imports, ts.Import{Path: "strings"})
 		}
 		f.GroupImports = len(f.Imports) > 1 || gen.Uniform(0, 1).Draw(t, "group") == 1
-		tag := strings.TrimSuffix(filepath.Base(names[i]), ".tsh")
+		tag := strings.ReplaceAll(strings.TrimSuffix(names[i], ".tsh"), "/", "_")
 		callImported := func(arg ts.Expr) ts.Expr {
 			if len(files[i].imports) == 0 {
 				return arg
